@@ -349,7 +349,7 @@ theorem history_inside_head (c : Cfg) (steps : List Step) (s : St) (hi : Inv c s
       | reopen a b cl t f => exact reopen_inside c s a b cl t f hi
       | close a => exact ⟨(close_inside c s a hi).1, (close_inside c s a hi).2.1⟩
       | exit a => exact ⟨(close_inside c s _ hi).1, (close_inside c s _ hi).2.1⟩
-      | «exists» => exact ⟨Touched.refl _ _, hi⟩
+      | «exists» => simp only [step]; split <;> exact ⟨Touched.refl _ _, hi⟩
       | setName v => exact ⟨Touched.refl _ _, hi⟩
       | setBase v => exact ⟨Touched.refl _ _, hi⟩
       | setFiled b => exact ⟨Touched.refl _ _, hi⟩
